@@ -6,7 +6,7 @@ ENGINES = {
     'mtsim': {'sources': ['mtsim.c'], 'plain_sources': ['mtwrap.c'],
               'wraps': ['pthread_mutex_init', 'pthread_mutex_lock', 'pthread_mutex_unlock', 'pthread_mutex_destroy', 'atexit']},
     'protosim': {'sources': ['protosim.c', 'channel.c', 'proto_bake.c', 'proto_sm.c', 'proto_cvc.c'], 'common_sources': ['b2util.c']},
-    'faultcall': {'sources': ['faultcall.c', 'fc_belt.c', 'fc_misc.c', 'fc_bign.c', 'fc_proto.c', 'fc_math.c', 'fc_other.c', 'fc_der.c'], 'common_sources': ['b2util.c']},
+    'faultcall': {'sources': ['faultcall.c', 'fc_belt.c', 'fc_misc.c', 'fc_bign.c', 'fc_proto.c', 'fc_math.c', 'fc_math2.c', 'fc_other.c', 'fc_der.c'], 'common_sources': ['b2util.c']},
 }
 
 REAL_ALL = ['all of /repo/src compiled from the current working tree with -DBEE2_VERIF']
@@ -103,6 +103,8 @@ CHECKS = {
             {'engine': 'streamsim', 'config': 'asan', 'runs': [100000, 3000000]},
             {'engine': 'streamsim', 'config': 'asan32', 'runs': [50000, 1500000]},
             {'engine': 'mtsim', 'config': 'asan', 'variant': 'exit', 'runs': [20000, 1000000]},
+            {'engine': 'protosim', 'config': 'asan', 'variant': 'bakebase', 'runs': [3000, 300000]},
+            {'engine': 'protosim', 'config': 'asan32', 'variant': 'bakebase', 'runs': [1000, 100000]},
         ],
         'sigs_per_leg': True,
         'rule': ('a case is one fault-free simulated call (faultcall: one of the high-level functions with valid arguments over its documented '
@@ -117,7 +119,7 @@ CHECKS = {
             'math-layer functions with their own stack argument are reached only through high-level callers',
             'UBSan alignment/integer checks are off (bee2 does unaligned word loads by design)',
         ],
-        'mandatory_probes': {'any': ['calls', 'fault.state_migrated', 'probe.several_exit_destructors']},
+        'mandatory_probes': {'any': ['calls', 'fault.state_migrated', 'probe.several_exit_destructors', 'probe.protocol_sessions_twice']},
     },
     'C09': {
         'level': 'fault_enumeration',
